@@ -16,7 +16,7 @@ FUNCS = {0x40: "reset", 0x42: "test", 0x43: "confirmed", 0x44: "unconfirmed", 0x
 class C07(ost.OutstationProp):
     id = "C07"
     translators = ["gen_link"]
-    proof_targets = ["Link/LayerProofs.vo"]
+    proof_targets = ["Link/LayerProofs.vo", "Outstation/SessionC12Proofs.vo"]
     property_file = "Properties/C07.v"
     modelled = ("modelled by hand: link/layer.rs process_header and replies (Link/Layer.v); "
                 "regenerated: control masks, function codes, special addresses")
@@ -63,9 +63,9 @@ class C07(ost.OutstationProp):
                 ops.append(("rx", ost.MASTER, "none", hexs(ost.frag(seq, F["read"], ost.read_classes((1, 2, 3, 0))))))
             for _ in range(rng.range(1, 4)):
                 v = rng.choice(victims)
-                who = rng.choice(["foreign", "bcast", "bcast", "master"])
-                frm = ost.FOREIGN if who == "foreign" else ost.MASTER
-                bc = rng.choice(["opt", "mand", "notreq"]) if who == "bcast" else "none"
+                who = rng.choice(["foreign", "bcast", "bcast", "master", "foreign-bcast", "foreign-bcast"])
+                frm = ost.FOREIGN if who.startswith("foreign") else ost.MASTER
+                bc = rng.choice(["opt", "mand", "notreq"]) if who.endswith("bcast") else "none"
                 ops.append(("rx", frm, bc, hexs(v)))
                 if rng.chance(1, 3):
                     ops.append(("rx", ost.MASTER, "none", hexs(ost.frag(seq, F["confirm"]))))
@@ -85,7 +85,7 @@ class C07(ost.OutstationProp):
                 continue
             frm, bc = int(op[1]), op[2]
             acted = [l for l in lines if len(l.split()) > 1 and l.split()[1] in ("tx", "cb", "info", "db")]
-            if bc == "none" and frm != ost.MASTER and not any_master:
+            if frm != ost.MASTER and not any_master:
                 if acted:
                     fails.append(("acted-for-foreign-master", "the outstation acted on a fragment from master %d (configured %d): %s"
                                   % (frm, ost.MASTER, acted[0][:80])))
